@@ -755,14 +755,18 @@ func (fd *feeder) decoders() {
 	hdr := make([]byte, 48)
 	var chain func(prefix []byte, d int)
 	chain = func(prefix []byte, d int) {
-		b := append(bytes.Clone(hdr), prefix...)
-		b = append(b, make([]byte, 40)...)
-		call("nts.DecodePacket", b, func() {
-			var p nts.Packet
-			if nts.DecodePacket(&p, b) == nil {
-				nts.ProcessRequest(b, make([]byte, 32), &p)
-			}
-		})
+		for _, tail := range []int{0, 1, 3, 4, 7, 8, 24, 27, 28, 40} {
+			b := append(bytes.Clone(hdr), prefix...)
+			b = append(b, make([]byte, tail)...)
+			call("nts.DecodePacket", b, func() {
+				var p nts.Packet
+				if nts.DecodePacket(&p, b) == nil {
+					nts.ProcessRequest(b, make([]byte, 32), &p)
+					var f ntske.Fetcher
+					nts.ProcessResponse(b, make([]byte, 32), &f, &p, p.UniqueID.ID)
+				}
+			})
+		}
 		if d == mc.Pick(fd.r, 2, 3) {
 			return
 		}
@@ -861,6 +865,6 @@ func TestCheck(t *testing.T) {
 		}
 		r.Sample(input{Target: "scion-service-port", Seed: "authopt-len=27", Mut: "none"})
 		r.Sample(input{Target: "ip-listener", Seed: "nts-level3", Mut: "u16[84]=0x0"})
-		r.Extra["rule"] = "targets: IP listener, SCION listener as service port / end-host port / dispatcher, CSPTP listener on both ports, NTS-KE handler behind a real TLS session, IP client (plain, NTS), SCION client (plain, SPAO), CSPTP client, and decoders called directly. Inputs: every valid message (NTP, NTS at two pool levels, SCION with empty/SCION/one-hop/incomplete one-hop paths, IPv6, SPAO, hop-by-hop, SCMP, authenticator option with data length 0..40, timestamp option with 35 control-message bodies, unknown options; CSPTP Sync / Follow Up) x {every truncation, every byte x 7 values, every (quick: even) 16-bit position x 10 values}; NTS-KE record sequences of <=2 (3) records over 74 records, closed or kept open; extension-field chains of <=2 (3) fields; cookie TLV and nonce/ciphertext length grammars. After every datagram to a listener a well-formed sentinel must be handled."
+		r.Extra["rule"] = "targets: IP listener, SCION listener as service port / end-host port / dispatcher, CSPTP listener on both ports, NTS-KE handler behind a real TLS session, IP client (plain, NTS), SCION client (plain, SPAO), CSPTP client, and decoders called directly. Inputs: every valid message (NTP, NTS at two pool levels, SCION with empty/SCION/one-hop/incomplete one-hop paths, IPv6, SPAO, hop-by-hop, SCMP, authenticator option with data length 0..40, timestamp option with 35 control-message bodies, unknown options; CSPTP Sync / Follow Up) x {every truncation, every byte x 7 values, every (quick: even) 16-bit position x 10 values}; NTS-KE record sequences of <=2 (3) records over 74 records, closed or kept open; extension-field chains of <=2 (3) fields x 10 tail lengths (0..40 bytes after the last field); cookie TLV and nonce/ciphertext length grammars. After every datagram to a listener a well-formed sentinel must be handled."
 	})
 }
